@@ -101,7 +101,8 @@ impl<K: Eq, V: PartialEq> PartialEq for HashMap<K, V> {
         if self.len() != other.len() {
             return false;
         }
-        self.iter().all(|(k, v)| other.get(k).map_or(false, |w| *v == *w))
+        self.iter()
+            .all(|(k, v)| other.get(k).map_or(false, |w| *v == *w))
     }
 }
 
@@ -136,6 +137,8 @@ impl<'a, K, V> IntoIterator for &'a HashMap<K, V> {
         fn split<K, V>(e: &(K, V)) -> (&K, &V) {
             (&e.0, &e.1)
         }
-        self.entries.iter().map(split as fn(&'a (K, V)) -> (&'a K, &'a V))
+        self.entries
+            .iter()
+            .map(split as fn(&'a (K, V)) -> (&'a K, &'a V))
     }
 }
